@@ -839,5 +839,5 @@ def run(ctx: Ctx, rep: Report, tier: str) -> None:
 
 
 # what the later rounds (seeding rounds 2-5, refactor twins, defect hunt) added to what the check decides
-LATER_ROUNDS = "headers round-trip (writer and reader partially evaluated on witness names), no reader bounds a length the writer can exceed"
+LATER_ROUNDS = "headers round-trip (writer and reader partially evaluated on witness names), no reader bounds a length the writer can exceed, a refused assignment leaves parseable text (validate before store), the software version travels with the platform"
 EXPLANATION = EXPLANATION.replace(" Does not decide", " Later rounds added: " + LATER_ROUNDS + ". Does not decide", 1) if " Does not decide" in EXPLANATION else EXPLANATION + " Later rounds added: " + LATER_ROUNDS + "."
